@@ -204,12 +204,20 @@ func (fr *Frame) appendBuiltin(c *ssa.CallCommon, ins ssa.Instruction, st *State
 		fx.assert(implies(eq(n, "0"), eq(nw, cur)))
 		// the result array
 		dst := sel(nw, rarr)
-		// in place: old content kept except the appended range
-		fx.assert(implies(inplace, fmt.Sprintf("(forall ((%s Int)) (! (= (select %s %s) (ite (and (<= (+ %s %s) %s) (< %s (+ %s %s %s))) (select (select %s %s) (+ %s (- %s (+ %s %s)))) (select (select %s %s) %s))) :pattern ((select %s %s))))",
-			j, dst, j, a.L[1], la, j, j, a.L[1], la, n, cur, b.L[0], b.L[1], j, a.L[1], la, cur, a.L[0], j, dst, j)))
-		// reallocated: copy of old then new
-		fx.assert(implies(realloc, fmt.Sprintf("(forall ((%s Int)) (! (=> (and (<= 0 %s) (< %s (+ %s %s))) (= (select %s %s) (ite (< %s %s) (select (select %s %s) (+ %s %s)) (select (select %s %s) (+ %s (- %s %s)))))) :pattern ((select %s %s))))",
-			j, j, j, la, n, dst, j, j, la, cur, a.L[0], a.L[1], j, cur, b.L[0], b.L[1], j, la, dst, j)))
+		// elements are addressed through the uninterpreted index function ix (so that the axioms
+		// trigger on the same terms contracts and code use): relative index j of the result slice
+		oldA := sel(cur, a.L[0])
+		bA := sel(cur, b.L[0])
+		// appended part (both cases): result[la + m] = b[m]
+		fx.assert(implies(not(eq(n, "0")), fmt.Sprintf("(forall ((%s Int)) (! (=> (and (<= %s %s) (< %s (+ %s %s))) (= (select %s (ix %s %s)) (select %s (ix %s (- %s %s))))) :pattern ((select %s (ix %s %s)))))",
+			j, la, j, j, la, n, dst, roff, j, bA, b.L[1], j, la, dst, roff, j)))
+		// kept part, reallocated: result[j] = a[j] for j < la
+		fx.assert(implies(realloc, fmt.Sprintf("(forall ((%s Int)) (! (=> (and (<= 0 %s) (< %s %s)) (= (select %s (ix %s %s)) (select %s (ix %s %s)))) :pattern ((select %s (ix %s %s)))))",
+			j, j, j, la, dst, roff, j, oldA, a.L[1], j, dst, roff, j)))
+		// in place: every cell of the array outside the appended range keeps its content
+		k2 := fx.freshName("k")
+		fx.assert(implies(inplace, fmt.Sprintf("(forall ((%s Int)) (! (=> (or (< %s (+ %s %s)) (>= %s (+ %s %s %s))) (= (select %s %s) (select %s %s))) :pattern ((select %s %s))))",
+			k2, k2, a.L[1], la, k2, a.L[1], la, n, dst, k2, oldA, k2, dst, k2)))
 		// ground instances for a statically short appended part (append(s, x) lowers to a 1-element
 		// slice): the appended elements are where Go puts them
 		var nlit int
